@@ -892,7 +892,7 @@ def _eval_guard(g, pname, probe):
 
 # ----------------------------------------------------------------------------- D5
 def d5_debug_gate(ctx, idx):
-    r = ctx.rule('D5.GATE', "the debug log reaches the output only under config['debug']", floor=5)
+    r = ctx.rule('D5.GATE', "the debug log reaches the output only under config['debug']", floor=3)
     with r:
         call = idx.func(AG + '.__call__')
         n_sites = 0
